@@ -144,7 +144,8 @@ CLAIMED = {
         design_ref="DESIGN.md section 5 (C15)",
         note="Trusted: TLC, Json module, recording harness (harness/src/c15.rs). A term is the string stored in the dictionary: the "
              "collapse of IRI/literal/datatype/language forms by encode_term_star is not judged (C13/C14). Strings without white space. "
-             "Exhaustive only within the cfg constants (3 strings, <=2 quoted triples, <=2 quads per database); identifier exhaustion not explored. "
+             "Exhaustive only within the cfg constants (3 strings, <=2 quoted triples, <=2 quads per database). Identifier exhaustion: recorded "
+             "boundary cases move the public counters to the last 0..3 identifiers of each range (a refusal is allowed, a wrong-range identifier is not). "
              "merge is judged only under its precondition (the maps agree).",
         technique="TLA+ refinement checking (TLC) + spec-to-impl replay + trace validation against the TLA+ requirement",
     ),
@@ -196,7 +197,9 @@ CLAIMED = {
     "C16": dict(
         category="exploration",
         text="Syntax.tla is the concrete syntax of the fragment as a printer state machine; TLC -simulate prints seeded syntax trees with "
-             "nondeterministic separators, comments, keyword case and equivalent spellings, and with single structured faults. Every text is "
+             "nondeterministic separators (space, tab, LF, CR LF, lone CR), comments ended by LF / CR / end of text, keyword case, equivalent spellings "
+             "(; and , abbreviations, optional WHERE, ASC, redundant brackets), arithmetic operands (precedence and left associativity), variable names "
+             "outside ASCII, and with single structured faults. Every text is "
              "parsed by the real parsers; TLC (SyntaxTrace.tla) requires acceptance, full consumption and structural equality modulo the "
              "documented normalisations for un-faulted texts and panic-freedom for faulted ones.",
         design_ref="DESIGN.md section 5 (C16) and section 6",
@@ -232,11 +235,17 @@ CLAIMED = {
         text="Update.tla defines the effect of the six update forms on the quad set and catalog (WHERE once on the pre-state via Sparql.tla, "
              "deletions before insertions, fresh blank nodes per solution occurrence, counts = actual change, rejected => unchanged). Seeded "
              "histories are executed through every update entry point of the real engine; TLC judges each request from the recorded lexical "
-             "dataset before and after it, matching allocated blank nodes by a bijection.",
-        design_ref="DESIGN.md section 5 (C03)",
+             "dataset before and after it, matching allocated blank nodes up to renaming. A code-shaped model of the executor "
+             "(UpdateImpl.tla: WHERE, template instantiation per solution with the blank-node allocator, deletions then insertions one quad "
+             "at a time in any order, counting, rejection before mutation) is checked by TLC against that effect for every dataset of a "
+             "5-quad universe x 13 operations, six classic mistakes (variants of the model) are each rejected, and every (dataset, operation) "
+             "instance is replayed on the real engine.",
+        design_ref="DESIGN.md sections 5 (C03) and 10.2",
         note="Trusted: TLC, Python generator/printer and lexical kind tables. Each request is judged against the recorded pre-state. "
-             "No exhaustive state space (the L1 menu of DESIGN.md was not built): evidence is trace validation of sampled histories.",
-        technique="TLA+ specification of update semantics evaluated by TLC as oracle (trace validation of recorded request histories)",
+             "Exhaustive only for the small universe of MCUpdate.tla; beyond it trace validation of sampled histories (incl. a family that "
+             "pre-loads blank nodes shaped like allocated ones).",
+        technique="TLA+ model checking of a code-shaped executor against the update semantics (TLC, with negative controls) + spec-to-impl "
+                  "replay + trace validation of recorded request histories with TLC as oracle",
     ),
     "C17": dict(
         category="model_checking",
@@ -275,10 +284,14 @@ CLAIMED = {
         category="model_checking",
         text="TLC checks a code-shaped model of CSPARQLWindow against the C09 requirement exhaustively for small streams/"
              "widths/slides; every behaviour of a smaller instance is replayed on the real window and seeded random long "
-             "streams are recorded from the real code; all recordings are validated by a TLA+ trace specification of the requirement.",
-        design_ref="DESIGN.md section 5 (C09)",
+             "streams are recorded from the real code; all recordings are validated by a TLA+ trace specification of the requirement, "
+             "and every recorded call is additionally stepped through the model itself (WindowModelTrace.tla). The model covers every "
+             "report strategy list (OnWindowClose, NonEmptyContent, Periodic, OnContentChange in any order, Iterator::all short-circuit, "
+             "HashMap iteration order as nondeterminism) and flush().",
+        design_ref="DESIGN.md sections 5 (C09) and 10.2",
         note="Trusted: TLC, the Json community module, the recording harness (harness/src/c09.rs). In-order streams only; "
-             "time-driven tick; OnWindowClose (+NonEmptyContent) strategies. Exhaustive only within the cfg constants.",
+             "time-driven tick. C09 is claimed for strategy lists without OnContentChange (for those only 'nothing foreign' is required, "
+             "see Window.tla); 'exactly once' for OnWindowClose [+NonEmptyContent]. Exhaustive only within the cfg constants.",
         technique="TLA+ model checking (TLC) + spec-to-impl replay + trace validation against the TLA+ requirement",
     ),
 }
